@@ -4,6 +4,8 @@ import NetVerif.Proofs.Lemmas.Dns
 import NetVerif.Proofs.C36
 import NetVerif.Proofs.Lemmas.DnsAccept
 import NetVerif.Proofs.Lemmas.DnsTotal
+import NetVerif.Proofs.Lemmas.DnsChecked
+import NetVerif.Proofs.Lemmas.DnsNoPanic
 /-!
 C37 — DNS parsing is safe and self-consistent on any input.
 
@@ -829,5 +831,67 @@ theorem optLoop_within (msg : Bytes) (e : Nat) : ∀ (fuel off : Nat) (os : List
     · simp at h
       subst h
       simp [packOpts]; omega
+
+/-! ## Go panic freedom
+
+`Model/DnsChecked.lean` is the reader once more with every Go index / slice / sub-slice expression
+behind a CHECKED primitive (`getC` = `msg[i]`, `sliceC` = `msg[a:b]`, outcome `Err.panic` when out of
+range) and exactly the guards of the Go code in front of them. For ALL byte strings, offsets and
+scripts: the twin never yields `Err.panic`, and it is equal to the model. -/
+
+open NetVerif.Proofs.DnsChecked NetVerif.Proofs.DnsNoPanic in
+/-- **`Message.Unpack` never panics** (checked twin; also for a single record / question / name at
+any offset: what the typed Parser methods run). -/
+theorem unpack_never_panics (msg : Bytes) (off typ len : Nat) :
+    unpackMessageC msg ≠ .error .panic ∧ unpackResourceC msg off ≠ .error .panic ∧
+    unpackQuestionC msg off ≠ .error .panic ∧ unpackRHeaderC msg off ≠ .error .panic ∧
+    unpackBodyC msg off typ len ≠ .error .panic ∧ unpackNameC msg off ≠ .error .panic := by
+  rw [unpackMessageC_eq, unpackResourceC_eq, unpackQuestionC_eq, unpackRHeaderC_eq, unpackBodyC_eq, unpackNameC_eq]
+  exact ⟨unpackMessage_noPanic msg, unpackResource_noPanic msg off, unpackQuestion_noPanic msg off,
+    unpackRHeader_noPanic msg off, unpackBody_noPanic msg off typ len, unpackName_noPanic msg off⟩
+
+open NetVerif.Proofs.DnsChecked NetVerif.Proofs.DnsNoPanic in
+/-- **The Skip paths never panic**: `SkipAll*` over a whole message, `SkipQuestion`, `skipResource`,
+`skipName` at any offset. -/
+theorem skip_never_panics (msg : Bytes) (off : Nat) :
+    skipMessageC msg ≠ .error .panic ∧ skipResourceC msg off ≠ .error .panic ∧
+    skipQuestionC msg off ≠ .error .panic ∧ skipNameC msg off ≠ .error .panic := by
+  rw [skipMessageC_eq, skipResourceC_eq, skipQuestionC_eq, skipNameC_eq]
+  exact ⟨skipMessage_noPanic msg, skipResource_noPanic msg off, skipQuestion_noPanic msg off,
+    skipLoop_noPanic msg _ off⟩
+
+open NetVerif.Proofs.DnsChecked NetVerif.Proofs.DnsNoPanic in
+/-- **The record-level Parser API never panics**, whatever mixture of `X()`, `SkipX()`,
+`XHeader()`+typed `XResource()` and `XHeader()`+`SkipX()` is applied to the records, and each of
+these on a single record at ANY offset (which covers calls made in any parser state: a call in
+the wrong section returns ErrNotStarted / ErrSectionDone before it touches the message). -/
+theorem parser_never_panics (msg : Bytes) (sc : List Step) (off : Nat) (s : Step) :
+    walkMessageC msg sc ≠ .error .panic ∧ walkResourceC msg off s ≠ .error .panic ∧
+    walkQuestionC msg off s ≠ .error .panic := by
+  rw [walkMessageC_eq, walkResourceC_eq, walkQuestionC_eq]
+  exact ⟨walkMessage_noPanic msg sc, walkResource_noPanic msg off s, walkQuestion_noPanic msg off s⟩
+
+open NetVerif.Proofs.DnsChecked in
+/-- the checked twin is the model -/
+theorem checked_twin_eq (msg : Bytes) (sc : List Step) (off : Nat) :
+    unpackMessageC msg = unpackMessage msg ∧ skipMessageC msg = skipMessage msg ∧
+    walkMessageC msg sc = walkMessage msg sc ∧ unpackNameC msg off = unpackName msg off ∧
+    skipNameC msg off = skipName msg off :=
+  ⟨unpackMessageC_eq msg, skipMessageC_eq msg, walkMessageC_eq msg sc, unpackNameC_eq msg off, skipNameC_eq msg off⟩
+
+open NetVerif.Proofs.DnsChecked in
+/-- **Decoded names are at most 254 (< 255) bytes** - unconditionally, on the checked twin. -/
+theorem name_len_le_255 (msg : Bytes) (off : Nat) (n : Bytes) (o : Nat)
+    (h : unpackNameC msg off = .ok (n, o)) : n.length ≤ 254 ∧ n.length < 255 := by
+  rw [unpackNameC_eq] at h
+  have := (unpackName_shape msg off n o h).1
+  have e : Gen.C36.nonEncodedNameMax = 254 := rfl
+  omega
+
+open NetVerif.Proofs.DnsChecked in
+/-- **Pointer chains terminate** - unconditionally, on the checked twin: the loop never runs out of
+fuel, whatever the pointers point at (loops, the last byte, beyond the end). -/
+theorem ptr_chain_terminates (msg : Bytes) (off : Nat) : unpackNameC msg off ≠ .error .fuel := by
+  rw [unpackNameC_eq]; exact unpackName_terminates msg off
 
 end NetVerif.Proofs.C37
